@@ -91,7 +91,9 @@ CHECKS = [
                 "ImageIterator(cached=False) vs cached on two images of the same animated file with next/seek/size "
                 "change/terminal resize/close histories are compared the same way.",
         "note": "A padding change counts as a settings change for the no-second-render clause (lenient reading of the "
-                "property); instrumented renderables are the harness's own (the library has no concrete Renderable).",
+                "property); instrumented renderables are the harness's own (the library has no concrete Renderable). "
+                "Image histories in which Pillow 11.1's own APNG decoder fails on a backward seek (pure-PIL "
+                "reproduction) are excluded and counted.",
     },
     {
         "property_id": "C10",
@@ -170,7 +172,9 @@ CHECKS = [
                 "reports, and calls of cached / terminal_size_cached harness functions are checked against a model "
                 "whose acceptable values are the fresh computation plus only the staleness the documentation allows; "
                 "patterns disabled->compute->enabled->compute and compute->toggle->recompute are generated "
-                "deliberately. Concurrent first calls of a cached function must run each body exactly once.",
+                "deliberately, also with a Process.start() (which migrates lock and cell-size cache to multi-process "
+                "objects) in between and with a resize landing while a terminal_size_cached body runs. Concurrent "
+                "first calls of a cached function must run each body exactly once.",
         "note": "Pixel-size/reported-value changes need only be noticed on a size change in cells or a toggle; only "
                 "results obtained while queries were disabled must be discarded by enable_queries().",
     },
@@ -212,7 +216,11 @@ CHECKS = [
                 "scheduling points; 2-4 real threads run generated programs of synchronized probes (nested), "
                 "UrwidImageScreen methods and Process.start() through the real start wrapper, interleaved by a "
                 "generated schedule; a monitor asserts mutual exclusion, re-entrancy, absence of deadlock and lock "
-                "hand-over to started processes. Engine B, per start method fork/spawn/forkserver, runs real parent "
+                "hand-over to started processes. Clause query_schedules runs the library's real query functions "
+                "(name/version, colours, cell size, kitty support, id probes) and input-draining readers on the simulated "
+                "terminal under the same owned schedules (optionally with a Process.start swap in between): every query must "
+                "return the reply the terminal gave to it, a pure reader must receive nothing, and no reply byte may be "
+                "left unread. Engine B, per start method fork/spawn/forkserver, runs real parent "
                 "threads, children and grandchildren on a real controlling pty: check-and-set on shared memory inside "
                 "synchronized probes, and id-carrying queries that must each receive exactly their own reply. A "
                 "re-entrancy clause exercises the library's real lock objects.",
@@ -225,7 +233,8 @@ CHECKS = [
         "technique": "model-based differential testing of generated redraw histories: long-lived screen + terminal model vs a fresh screen drawing the same canvas into a fresh model",
         "text": "Generated histories of layout edits over urwid trees holding kitty/iterm2/block image widgets (insert, "
                 "remove, swap, resize, scroll, overlay cover/uncover, retarget, widget creation/deletion+gc, clear, "
-                "stop/start, explicit clear_images, wrong-size draws, bare non-composite tops) on kitty/konsole/wezterm/"
+                "stop/start, explicit clear_images, wrong-size draws, bare non-composite tops, widgets that are instances of an application subclass of "
+                "UrwidImage) on kitty/konsole/wezterm/"
                 "unknown identities; after each redraw the graphics-placement map and text cells of the long-lived "
                 "terminal model must equal those of a fresh screen drawing the same canvas from scratch; every redraw "
                 "is exactly one synchronized-update bracket with no cut control sequence; no placements after "
